@@ -391,6 +391,8 @@ impl Drop for ThreadPool {
     fn drop(&mut self) {
         self.state.sender.take();
         for worker in self.workers.drain(..) {
+            #[cfg(feature = "verif-hooks")]
+            crate::verif::sim_join(&worker);
             let _ = worker.join();
         }
     }
@@ -475,6 +477,14 @@ impl ThreadPoolState {
                     receive_scope_completion(done);
                     break;
                 }
+            }
+
+            #[cfg(feature = "verif-hooks")]
+            if crate::verif::in_sim() {
+                crate::verif::block_until(crate::verif::site::SCOPE_HELP, || {
+                    !done.is_empty() || !receiver.is_empty()
+                });
+                continue;
             }
 
             select_biased! {
@@ -718,6 +728,8 @@ impl<'scope> Scope<'scope> {
         // `Scope::complete_root_and_wait` waits for all expected completions
         // before `ThreadPool::scope` returns.
         enqueue(&self.sender, unsafe { erase_job_lifetime(job) });
+        #[cfg(feature = "verif-hooks")]
+        crate::verif::yield_point(crate::verif::site::SPAWN);
     }
 
     fn complete_root_and_wait(&self) {
@@ -755,6 +767,8 @@ impl ScopeState {
     }
 
     fn complete_one(&self) -> bool {
+        #[cfg(feature = "verif-hooks")]
+        crate::verif::yield_point(crate::verif::site::COMPLETE);
         let previous = self.completion.complete_one();
         let completed = completed(previous) + 1;
         let expected = expected(previous);
@@ -856,6 +870,14 @@ unsafe fn erase_job_lifetime<'scope>(job: ScopedJob<'scope>) -> Job {
 }
 
 fn receive_scope_completion(done: &Receiver<()>) {
+    #[cfg(feature = "verif-hooks")]
+    if crate::verif::in_sim() {
+        expect_scope_completion(crate::verif::sim_recv(
+            crate::verif::site::SCOPE_DONE,
+            done,
+        ));
+        return;
+    }
     expect_scope_completion(done.recv());
 }
 
@@ -883,8 +905,12 @@ impl BackupWorker {
 
         let (shutdown, shutdown_receiver) = bounded(1);
         let receiver = pool.receiver.clone();
+        #[cfg(feature = "verif-hooks")]
+        let verif_child = crate::verif::new_child();
         let pool = ThreadPoolStatePtr::new(pool);
         let worker = thread::spawn(move || {
+            #[cfg(feature = "verif-hooks")]
+            let _verif_slot = verif_child.map(|c| c.bind());
             // SAFETY: backup workers are joined by the worker that spawned them
             // before that worker resumes, and primary workers are joined before
             // the boxed pool state is dropped.
@@ -895,6 +921,31 @@ impl BackupWorker {
             install_pool(pool, || {
                 install_background_worker(|| {
                     loop {
+                        #[cfg(feature = "verif-hooks")]
+                        if crate::verif::in_sim() {
+                            let job = crate::verif::block_until_some(
+                                crate::verif::site::BACKUP,
+                                || {
+                                    use crossbeam::channel::TryRecvError::*;
+                                    match shutdown_receiver.try_recv() {
+                                        Ok(()) | Err(Disconnected) => return Some(None),
+                                        Err(Empty) => {}
+                                    }
+                                    match receiver.try_recv() {
+                                        Ok(job) => Some(Some(job)),
+                                        Err(Disconnected) => Some(None),
+                                        Err(Empty) => None,
+                                    }
+                                },
+                            );
+                            match job {
+                                Some(job) => {
+                                    job();
+                                    continue;
+                                }
+                                None => break,
+                            }
+                        }
                         select_biased! {
                             recv(shutdown_receiver) -> _ => break,
                             recv(receiver) -> message => match message {
@@ -916,6 +967,8 @@ impl BackupWorker {
     fn shutdown_and_join(&mut self) {
         let _ = self.shutdown.send(());
         if let Some(worker) = self.worker.take() {
+            #[cfg(feature = "verif-hooks")]
+            crate::verif::sim_join(&worker);
             let _ = worker.join();
         }
     }
@@ -948,11 +1001,24 @@ impl Drop for BackupWorkerLiveGuard<'_> {
 }
 
 fn spawn_worker(receiver: Receiver<Job>, pool: ThreadPoolStatePtr) -> JoinHandle<()> {
+    #[cfg(feature = "verif-hooks")]
+    let verif_child = crate::verif::new_child();
     thread::spawn(move || {
+        #[cfg(feature = "verif-hooks")]
+        let _verif_slot = verif_child.map(|c| c.bind());
         // SAFETY: each worker is joined before the boxed pool state is dropped.
         let pool = unsafe { pool.as_ref() };
         install_pool(pool, || {
             install_background_worker(|| {
+                #[cfg(feature = "verif-hooks")]
+                if crate::verif::in_sim() {
+                    while let Ok(job) =
+                        crate::verif::sim_recv(crate::verif::site::WORKER_RECV, &receiver)
+                    {
+                        job();
+                    }
+                    return;
+                }
                 for job in receiver {
                     job();
                 }
